@@ -1498,15 +1498,25 @@ fn serde_routes(c: &mut Ctx) {
 
 pub fn run(c: &mut Ctx) {
     c.families(10);
+    crate::ctx::step("builder_boundary-Vec");
     builder_boundary::<Vec<u8>>(c, "Vec");
+    crate::ctx::step("builder_boundary-BytesMut");
     builder_boundary::<BytesMut>(c, "BytesMut");
+    crate::ctx::step("builder_sequences-Vec");
     builder_sequences::<Vec<u8>>(c, "Vec");
+    crate::ctx::step("builder_sequences-BytesMut");
     builder_sequences::<BytesMut>(c, "BytesMut");
+    crate::ctx::step("from_wire");
     from_wire(c);
+    crate::ctx::step("compressed_wire");
     compressed_wire(c);
+    crate::ctx::step("from_text");
     from_text(c);
+    crate::ctx::step("scanner_names");
     scanner_names(c);
+    crate::ctx::step("serde_routes");
     serde_routes(c);
+    crate::ctx::step("ops");
     ops(c);
     if c.scale >= 1.0 && !c.is_quick() {
         c.exhaustive = Some(true);
